@@ -1279,8 +1279,8 @@ where
                 Token::Tag(
                     tag!(<caption> | <col> | <colgroup> | <tbody> | <tfoot> | <thead> | </table>),
                 ) => {
-                    declare_tag_set!(table_outer = "table" "tbody" "tfoot");
-                    if self.in_scope(table_scope, |e| self.elem_in(&e, table_outer)) {
+                    declare_tag_set!(table_body = "tbody" "tfoot" "thead");
+                    if self.in_scope(table_scope, |e| self.elem_in(&e, table_body)) {
                         self.pop_until_current(table_body_context);
                         self.pop();
                         ProcessResult::Reprocess(InsertionMode::InTable, token)
